@@ -136,6 +136,32 @@ def run(ctx):
                         s3.violate({"src": "\n".join(inline[:2] + runl + [last] + inline[2 + len(runl):]), "twin": "\n".join(twin) + ending, "part_zq.s": "\n".join(runl + [last]) + ending},
                                    "same output", (b["status"], b.get("exc"), (b.get("error") or "")[:100]), "moving statements into an included file used inside a repeated body (or dropping the final newline) changes the output")
                         break
+        # a run moved into a file whose first version was broken (or missing) and has been repaired since: the program with
+        # the .include still equals the inline program, in the same process
+        for i in range(8 if tier == "quick" else 60):
+            runl = [rng.choice(stm) for _ in range(rng.randrange(1, 5))]
+            inline = ["*=0x008000", "first:"] + runl + ["done:", ".dw first, done"]
+            twin = ["*=0x008000", "first:", f".include 'fix_zq_{i}.s'", "done:", ".dw first, done"]
+            name = f"fix_zq_{i}.s"
+            import os as _os
+            broken = rng.choice([None, "lda #\n", ".ascii 'abc\n", "lda.q 1\n", "}\n", "/* open\n"])
+            path = _os.path.join(run_.tmp, name)
+            if broken is None:
+                if _os.path.exists(path):
+                    _os.remove(path)
+            else:
+                impl.write_files(run_.tmp, {name: "\n".join(runl[:1]) + "\n" + broken}, None)
+            bad = impl.assemble("\n".join(twin) + "\n", "low_rom", cwd=run_.tmp)
+            impl.write_files(run_.tmp, {name: "\n".join(runl) + "\n"}, None)
+            a = impl.assemble("\n".join(inline) + "\n", "low_rom", cwd=run_.tmp)
+            b = impl.assemble("\n".join(twin) + "\n", "low_rom", cwd=run_.tmp)
+            s3.cases += 1
+            s3.count("include-repaired-after-failure")
+            if bad["status"] == "ok":
+                s3.violate({"twin": "\n".join(twin), name: broken}, "rejected", "assembled", "a program including a broken / missing file is assembled")
+            elif outputs(a) is None or outputs(a) != outputs(b):
+                s3.violate({"src": "\n".join(inline), "twin": "\n".join(twin), name: "\n".join(runl), "history": f"an earlier assembly of the twin failed while {name} was " + ("missing" if broken is None else "broken: " + broken.strip())},
+                           "same output", (b["status"], b.get("exc"), (b.get("error") or "")[:100]), "moving statements into an included file changes the output once an earlier assembly failed inside that file")
         s3.sample({"shape": "first: RUN between: … RUN { inner: RUN } done:"})
         return [s, s2, s3]
     finally:
